@@ -123,6 +123,16 @@ def check_instance(payload, K, st: Stats, doc_skip=False, collect=None):
         obligations.append((f"computes {c}", tr(M.apply_subs(df[c], subs)), ref_comp, "count"))
     if not ccol:
         raise HarnessError("no compute action column in the model output")
+    # ---- Toll clauses (C31): no write actions, no occupancy ------------------------------------
+    for k, c in M.ARCHS[arch]:
+        if k != "toll":
+            continue
+        for col, v in list(df.items()) + list(run.usage.items()):
+            p = col.split(SEP)
+            is_write = p[0] == "action" and len(p) == 4 and p[1] == c and p[3] == "write"
+            is_occ = (p[0] == "usage" and len(p) >= 3 and p[1] == "memory" and p[2] == c) or (p[0] == "reservation" and p[1] == c)
+            if is_write or is_occ:
+                obligations.append((f"toll: {col} == 0", tr(M.apply_subs(v, subs)), z3.IntVal(0), "toll"))
     # ---- (2),(3) identities between model outputs (no substitution: arbitrary tile shapes) --------
     ident = []
     comps = [nm for k, nm in M.ARCHS[arch]]
@@ -461,8 +471,10 @@ def run(args):
     for v in violations:
         hit = [k for k in kf if k.get("key") and k["key"] == v.get("key")]
         (known.append(hit[0]["what_fails"]) if hit else remaining.append(v))
-    if stats.extra.get("symbolic_execution_failed"):
-        stats.unknown += len(stats.extra["symbolic_execution_failed"])     # inconclusive, never success
+    # every generated skeleton is accepted by the unchanged tree; a rejection or a failure to run on
+    # symbols is inconclusive (exit 3), never a silent pass
+    for k in ("symbolic_execution_failed", "rejected_by_real_code"):
+        stats.unknown += len(stats.extra.get(k) or [])     # inconclusive, never success
     return finish(
         PID, args.tier, "model_checking", stats, t0, remaining[:5], known,
         functions_encoded=["accelforge.model.main.evaluate_mapping (up to run_model)", "run_model", "analyze_reuse_and_add_reservations_to_mapping",
